@@ -167,6 +167,11 @@ class Gen:
         if kind == 'muladd' and self.draw(st.integers(0, 3)) == 0:
             # MulAdd.new with the signal in the mul slot
             a, m = m, a
+            if self.is_num(a) and self.sem.values[a] == 0:
+                # MulAdd.new(0, sig, add) keeps a MulAdd(sig, 0, add) unit
+                # running at sig's rate although its value is `add`; the
+                # rate bookkeeping of this generator follows the value
+                a = self.add({'k': 'c', 'v': 2})
         return self.add({'k': kind, 'a': a, 'm': m, 'd': d})
 
     def sumn(self):
